@@ -184,7 +184,8 @@ def scenario(sid, shape, script, long_ms, origin="gen"):
             steps += [{"do": "ungate", "point": wpoint}, {"do": "settle", "ms": 40}]
         elif s[0] == "latereply":
             # the withheld answer arrives now (for a task that died meanwhile: it was on its way)
-            steps += [{"do": "latereply", "class": cls_of[s[1]]}, {"do": "await", "caller": "A%d" % ncall, "timeout_ms": 20000},
+            steps += [{"do": "latereply", "class": cls_of[s[1]], "kind": "error" if len(s) > 2 and s[2] == "error" else ""},
+                      {"do": "await", "caller": "A%d" % ncall, "timeout_ms": 20000},
                       {"do": "settle", "ms": 40}]
         elif s[0] == "stale":
             # a duplicated / late answer of the dead task's last command: a stale healthy state message
@@ -253,7 +254,7 @@ def instant_of(shape, script):
         elif s[0] == "arms":
             parts.append("status-reaction-first")
         elif s[0] in ("stale", "latereply") and seen:
-            parts.append("then-" + ("stale-state" if s[0] == "stale" else "late-answer") + ("-within-grace" if "armf" in [x[0] for x in script]
+            parts.append("then-" + ("stale-state" if s[0] == "stale" else "late-error-answer" if len(s) > 2 and s[2] == "error" else "late-answer") + ("-within-grace" if "armf" in [x[0] for x in script]
                          and script.index(s) < [x[0] for x in script].index("releasef") else ""))
     return "+".join(parts) or "idle"
 
@@ -356,10 +357,16 @@ def pick(ctx, cases, quick):
          lambda c: c[1][0][2], 1 if quick else 3)
     # a task dies owing its answer to the racing transition; the answer arrives within / beyond the watcher's grace period
     owed = lambda c: c[1][0][0] == "api" and c[1][0][2] == "owed"
-    take(lambda c: two(c) and owed(c) and c[1][0][3] == fault_of(c)[2] and victim_crit(c),
+    late_mode = lambda c: ([x[2] for x in c[1] if x[0] == "latereply" and len(x) > 2] + ["ok"])[0]
+    take(lambda c: two(c) and owed(c) and c[1][0][3] == fault_of(c)[2] and victim_crit(c) and late_mode(c) == "ok",
          lambda c: (steps_of(c), c[1][0][1]), 1 if quick else 4)
-    take(lambda c: two(c) and owed(c) and (c[1][0][3] != fault_of(c)[2] or not victim_crit(c)) and any(c[0]["crit"].values()),
+    take(lambda c: two(c) and owed(c) and (c[1][0][3] != fault_of(c)[2] or not victim_crit(c)) and any(c[0]["crit"].values())
+         and late_mode(c) == "ok",
          lambda c: (c[1][0][3] == fault_of(c)[2], victim_crit(c)), 1 if quick else 3)
+    # ... the answer that was on its way is an error: the transition fails after the run was announced (START) / while it runs (STOP)
+    take(lambda c: two(c) and owed(c) and c[1][0][3] == fault_of(c)[2] and victim_crit(c) and c[1][-1][0] == "latereply" and c[1][-1][2] == "error"
+         and steps_of(c) == ("api", "fault", "latereply"),
+         lambda c: (c[1][0][1], kinds(c)[0] in ("EXECUTOR_LOST", "AGENT_LOST")) if quick else (c[1][0][1], kinds(c)), 1)
     # a stale healthy state message of the dead task, within / beyond the grace period
     take(lambda c: two(c) and "stale" in steps_of(c) and fault_of(c)[2] == [s for s in c[1] if s[0] == "stale"][0][1] and victim_crit(c),
          lambda c: steps_of(c) if quick else (steps_of(c), c[0]["state"], kinds(c)), 1)
